@@ -1,15 +1,21 @@
 """C18 (ii)+(iii): drive the REAL receive path of an RT sc3 process.
 
-Input  {port, histories: [[op, ...], ...], dgrams: [{hex, src}], udp: [{hex}], watchdog}
-  op = ['create', path, matching, src|None, recv_iface|None, tmpl|None, tag]
-       ['enable'|'disable'|'one_shot'|'free', id]  ['set_func', id, tag]  ['cmd_period']
+Input  {port, histories: [[op, ...], ...], dgrams: [{hex, src}], udp: [{hex}], watchdog, probes: bool}
+  op = ['create', path, matching, src|None, rif|None, tmpl|None, fn]
+       ['enable'|'disable'|'one_shot'|'free', id]  ['set_func', id, fn]  ['cmd_period']
        ['dgram', hex, [ip, port], iface]
-  src = [ip_string, port|None];  tmpl item = None | ['eq', enc] | ['pred', name]
+  src = [ip_string, port|None];  rif = 0 | 1 (the two real UDP interfaces) | 'zero' (recv_port=0)
+  tmpl = list of items | {'scalar': item};  item = None | ['eq', enc] | ['pred', name]
+  fn = {'tag': n, 'share': bool, 'raises': bool}: a fresh function object, or (share) ONE function
+       object per tag reused by every responder that names it; raises: logs, then raises ValueError
 Every datagram goes through OscInterface._handle_request(bytes, (ip, port)) of the interface
-`iface` (0 = the library port, 1 = an extra UDP port), in the main thread under a SIGALRM
-watchdog, then the script waits for the SystemClock task that runs the responders.
-Output: per history, per op, the invocation log [[rid, tag, msg, time, src_addr, src_port, recv_port], ...]
-        (plus 'HANG' / 'RAISED:<type>' markers); per dgram {out, hang, raised, alive}."""
+`iface`, in the main thread under a SIGALRM watchdog, then the script waits for the SystemClock
+task that runs the responders.
+Output per history, per op: {'log': invocations [[rid|77777, tag, msg, time, src_addr, src_port, recv_port], ...]
+        (+ 'HANG' / 'RAISED:<type>' / 'OPERROR:<type>' markers),
+        'state': {'en': [enabled flags], 'ex': [[path, [rid..]]..], 'mt': same, 'cp': [rid..]}}
+        -- the dispatchers' tables and CmdPeriod's registry restricted to this history's responders;
+per dgram {out, hang, raised, alive}."""
 import json, os, signal, socket, struct, sys, threading, time
 
 inp = json.load(open(sys.argv[1]))
@@ -34,7 +40,9 @@ P1 = inp['port'] + 1
 main.open_udp_port(P1)
 ifaces.append(osci.OscInterface._local_endpoints[(socket.gethostbyname('localhost'), P1)])
 PORTS = [i.port for i in ifaces]
-BASELINE = [len(OscFunc._default_dispatcher.active), len(OscFunc._default_matching_dispatcher.active)]
+DISP = [OscFunc._default_dispatcher, OscFunc._default_matching_dispatcher]
+BASELINE = [len(d.active) for d in DISP]
+WILD = 77777
 
 
 def enc(v):
@@ -63,11 +71,19 @@ def dec(e):
         return int(v)
     if k == 's':
         return bytes(v).decode('utf-8')
+    if k == 'f':
+        return struct.unpack('>d', struct.pack('>Q', int(v)))[0]
+    if k == 'B':
+        return bool(v)
+    if k == 'b':
+        return bytes(v)
     raise ValueError(e)
 
 
 PREDS = {'pos': lambda x: isinstance(x, int) and not isinstance(x, bool) and x > 0,
-         'isstr': lambda x: isinstance(x, str)}
+         'isstr': lambda x: isinstance(x, str),
+         'ident': lambda x: x,                 # the argument itself: falsy / truthy non-bool results
+         'gt5raw': lambda x: x > 5}            # raises TypeError on str / bytes / list arguments
 
 window = [0.0, 0.0]
 
@@ -80,6 +96,10 @@ def enc_time(t):
 
 
 class Hang(BaseException):
+    pass
+
+
+class Boom(BaseException):
     pass
 
 
@@ -125,12 +145,52 @@ def deliver(iface, data, addr):
 def run_history(ops):
     log = []
     resp = []
+    shared = {}
 
-    def mk(rid, tag):
+    def mk(rid, fn):
+        tag = fn['tag']
+        if fn.get('share'):
+            if tag not in shared:
+                def sf(msg, time, addr, port):
+                    log.append([WILD, tag, [list(msg[0].encode('utf-8')), [enc(x) for x in msg[1:]]],
+                                time, addr.addr, addr.port, port])
+                shared[tag] = sf
+            return shared[tag]
+
         def f(msg, time, addr, port):
             log.append([rid, tag, [list(msg[0].encode('utf-8')), [enc(x) for x in msg[1:]]],
                         time, addr.addr, addr.port, port])
+            if fn.get('raises'):
+                raise ValueError('responder %d raises' % rid)
         return f
+
+    def item(it):
+        return None if it is None else (dec(it[1]) if it[0] == 'eq' else PREDS[it[1]])
+
+    def snapshot():
+        st = {'en': [bool(r.enabled) for r in resp]}
+        for name, d in (('ex', DISP[0]), ('mt', DISP[1])):
+            owner = {}
+            for rid, r in enumerate(resp):
+                if r in d.wrapped_funcs:
+                    owner.setdefault(id(d.wrapped_funcs[r]), []).append(rid)
+            tbl = []
+            for key, funcs in d.active.items():
+                ids = []
+                used = {}
+                for w in funcs:
+                    cands = owner.get(id(w))
+                    if cands:
+                        k = used.get(id(w), 0)
+                        ids.append(cands[min(k, len(cands) - 1)])
+                        used[id(w)] = k + 1
+                if ids:
+                    tbl.append([list(key.encode('utf-8')), ids])
+            st[name] = tbl
+        mine = {id(r): rid for rid, r in enumerate(resp)}
+        st['cp'] = [mine[id(a.__self__)] for a in sac.CmdPeriod._actions
+                    if getattr(a, '__self__', None) is not None and id(a.__self__) in mine]
+        return st
 
     outs = []
     for op in ops:
@@ -139,14 +199,16 @@ def run_history(ops):
         try:
             k = op[0]
             if k == 'create':
-                _, path, matching, src, rif, tmpl, tag = op
+                _, path, matching, src, rif, tmpl, fn = op
                 rid = len(resp)
                 srcid = NetAddr(src[0], src[1]) if src is not None else None
-                rport = PORTS[rif] if rif is not None else None
-                if tmpl is not None:
-                    tmpl = [None if it is None else (dec(it[1]) if it[0] == 'eq' else PREDS[it[1]]) for it in tmpl]
+                rport = None if rif is None else (0 if rif == 'zero' else PORTS[rif])
+                if isinstance(tmpl, dict):
+                    tmpl = item(tmpl['scalar'])
+                elif tmpl is not None:
+                    tmpl = [item(it) for it in tmpl]
                 ctor = OscFunc.matching if matching else OscFunc
-                resp.append(ctor(mk(rid, tag), path, srcid, rport, arg_template=tmpl))
+                resp.append(ctor(mk(rid, fn), path, srcid, rport, arg_template=tmpl))
             elif k == 'enable':
                 resp[op[1]].enable()
             elif k == 'disable':
@@ -167,13 +229,13 @@ def run_history(ops):
                     mark.append('RAISED:' + raised)
         except Exception as e:
             mark.append('OPERROR:' + type(e).__name__)
-        outs.append(mark + [x[:3] + [enc_time(x[3])] + x[4:] for x in log])
+        outs.append({'log': mark + [x[:3] + [enc_time(x[3])] + x[4:] for x in log], 'state': snapshot()})
     for r in resp:
         try:
             r.free()
         except Exception:
             pass
-    leftover = [len(OscFunc._default_dispatcher.active) - BASELINE[0], len(OscFunc._default_matching_dispatcher.active) - BASELINE[1]]
+    leftover = [len(d.active) - b for d, b in zip(DISP, BASELINE)]
     return outs, leftover
 
 
@@ -246,6 +308,51 @@ def run_udp(cases):
     return res
 
 
+def probes():
+    """fixed scenarios whose outcome the harness turns into signatured findings (run LAST: the
+    BaseException one may end the clock thread)"""
+    out = {}
+    log = []
+    m = b'/c18p\0\0\0,i\0\0\0\0\0\1'
+
+    def F(msg, time, addr, port):
+        log.append('F')
+
+    def G(msg, time, addr, port):
+        log.append('G')
+    # the same function object in two responders, then function replacement on the second
+    r0, r1 = OscFunc(F, '/c18p'), OscFunc(F, '/c18p')
+    r1.func = G
+    deliver(ifaces[0], m, ('127.0.0.1', 9))
+    out['shared_replace'] = list(log)
+    r0.free()
+    r1.free()
+    del log[:]
+    # a responder raising an Exception, then one raising a BaseException; then the next datagram
+    def mk(tag, exc=None):
+        def f(msg, time, addr, port):
+            log.append(tag)
+            if exc is not None:
+                raise exc()
+        return f
+    a, b, c = OscFunc(mk('a'), '/c18p'), OscFunc(mk('b', ValueError), '/c18p'), OscFunc(mk('c'), '/c18p')
+    h, r = deliver(ifaces[0], m, ('127.0.0.1', 9))
+    out['exception'] = {'log': list(log), 'hang': h, 'raised': r, 'in_awake_call': bool(main._in_awake_call)}
+    del log[:]
+    b.func = mk('b')
+    h, r = deliver(ifaces[0], m, ('127.0.0.1', 9))
+    out['after_exception'] = {'log': list(log), 'hang': h, 'raised': r}
+    del log[:]
+    b.func = mk('b', Boom)
+    h, r = deliver(ifaces[0], m, ('127.0.0.1', 9))
+    out['baseexception'] = {'log': list(log), 'hang': h, 'raised': r, 'in_awake_call': bool(main._in_awake_call)}
+    del log[:]
+    b.func = mk('b')
+    h, r = deliver(ifaces[0], m, ('127.0.0.1', 9))
+    out['after_baseexception'] = {'log': list(log), 'hang': h, 'raised': r}
+    return out
+
+
 result = {'ports': PORTS, 'histories': [], 'leftover': []}
 for h in inp.get('histories', []):
     o, l = run_history(h)
@@ -254,6 +361,7 @@ for h in inp.get('histories', []):
 result['order'] = order_probe()
 result['dgrams'] = run_dgrams(inp.get('dgrams', []))
 result['udp'] = run_udp(inp.get('udp', []))
+result['probes'] = probes() if inp.get('probes') else {}
 json.dump(result, open(sys.argv[2], 'w'))
 sys.stdout.flush()
 os._exit(0)
